@@ -1,11 +1,11 @@
 SPECIFICATION Spec
 CONSTANTS
   Callers <- MC_Callers
-  Three = TRUE
+  Three = FALSE
   MaxEst = 2
-  MaxFaults = 3
+  MaxFaults = 0
   AllowClose = FALSE
   AllowSplit = TRUE
-  StartCached = TRUE
-  MarkBeforePut = TRUE
+  StartCached = FALSE
+  MarkBeforePut = FALSE
 INVARIANTS NoPanic OneEstablisher EstablisherOnlyWhileUnavailable StableEnd
